@@ -13,7 +13,7 @@ class Prop(PropBase):
             'every record (seq, is_difop, is_frame_begin, time, bytes incl. rewritten header) with the model; phase 2: feed the recorded bytes to a second real driver with '
             'use_lidar_clock and compare with the original clouds: same frames, same points, timestamps shifted by one constant <= packet duration (+1 us); non-trivial = >= 1 cloud replayed')
     explanation = 'C14_T1..T3 (Coq: record numbering/flags/bytes; recorded header decodes to receive time = original + packet duration exactly, both formats) + record-then-replay on the real driver'
-    assumptions = ['fixed UTC offset time zone']
+    assumptions = ['process time zones: fixed offsets, and POSIX rules with daylight saving (European, US, Australian); receive times inside the two hours around the end of daylight saving, whose calendar times coincide, are not generated']
     projection = {'kinds': {'cloud', 'p', 'pkt', 'open', 'crash', 'nodrv', 'initfail'}, 'ignore_buf': True}
 
     def generate(self, rng, tier):
@@ -38,6 +38,18 @@ class Prop(PropBase):
                         n2 = f'c14_host_RSBP{"v4" if v4 else "v3"}_{r}'
                         self.cfgs[n2] = (t, cfg2)
                         scn_all.append(scen.mixed_scenario(rng, self.L, t, n2, cfg2, malformed_p=0.0, host=True, npk=4, bpv4=v4, start_az=35900))
+        # process time zones WITH daylight saving, while it is in force and while it is not (calendar-header types under the host clock:
+        # the header is written with localtime() and read back with mktime()), and the LiDAR clock in such zones
+        import tzrules
+        for zi, zone in enumerate(tzrules.ZONES):
+            for ti, t in enumerate(('RS16', 'RS32', 'RSBP')):
+                for season, hb in (('nov', 1700000000000000), ('jul', 1721043045000000)):
+                    host = not (ti == zi and season == 'nov')
+                    cfg = scen.rand_cfg(rng, dense=0, wait=rng.randrange(2), lclock=0 if host else 1, pktcb=1, tsfirst=0)
+                    cfg.tzd = zone
+                    name = f'c14_dst_{zone}_{season}_{"host" if host else "lidar"}_{t}'
+                    self.cfgs[name] = (t, cfg)
+                    scn_all.append(scen.mixed_scenario(rng, self.L, t, name, cfg, malformed_p=0.0, gap_p=0.1, host=host, npk=4, start_az=35900, bpv4=False, host_base=hb))
         # recording from the UDP sockets with user / tail layers around every datagram: the record must hold the packet, not the layers
         base = 8000 + (os.getpid() % 30) * 100        # a port block of this property only, below the ephemeral range
         socks = []
@@ -90,6 +102,9 @@ class Prop(PropBase):
             import copy
             c2 = copy.copy(cfg); c2.lclock = 1; c2.pktcb = 0
             lines.append(f'S replay_{name}')
+            if getattr(c2, 'tzd', None):
+                import tzrules
+                lines.append(tzrules.line(c2.tzd))
             lines.append(c2.line(0, l)); lines.append('I 0')
             w = 10
             for o in out:
